@@ -389,6 +389,16 @@ func cmdCheck(args []string) int {
 		fmt.Printf("UNDECIDED contract-parse-error: %v\n", err)
 		return 3
 	}
+	if lint := lintGhostFrames(cs); len(lint) > 0 {
+		for _, l := range lint {
+			fmt.Printf("LINT %s\n", l)
+		}
+		if os.Getenv("GOVC_LINT_ONLY") != "" {
+			return 0
+		}
+		fmt.Printf("UNDECIDED contract-error: %d contract(s) constrain ghost state they do not declare modified (see LINT lines)\n", len(lint))
+		return 3
+	}
 	// which packages do we need?
 	need := map[string]bool{}
 	var selected []string
